@@ -15,6 +15,7 @@
 //     receives from through a relay field (src_done_signal)
 //   - h2/relay.go: every `destMu.Lock()` is released on every path of its statement list
 //     (src_destmu_released_on_every_path)
+//   - h2/h2.go (Config.Proxy): every close(<chan>) is inside a sync.Once's Do (src_done_closed_at_most_once)
 //   - h2/relay.go (processFrame): no `err :=` in an inner scope (src_processframe_errors_reach_return)
 //   - h2/relay.go (emitEligibleFrames): is the send into `output` a case of a
 //     select with another receive case (src_emit_abortable) or a bare send
@@ -331,6 +332,58 @@ func main() {
 	})
 	doneSignal := doneField != "" && closesChan && assignsField && deferredInBoth == 2
 
+	// --- the session's done channel is closed at most once: every close(<chan>) in Proxy sits inside a function
+	// literal passed to <once>.Do(...) where <once> is declared `var <once> sync.Once` in Proxy (a check-then-close
+	// such as `select { case <-done: default: close(done) }` is not atomic: two directions ending together both close)
+	onceVars := map[string]bool{}
+	ast.Inspect(px.Body, func(n ast.Node) bool {
+		ds, ok := n.(*ast.DeclStmt)
+		if !ok {
+			return true
+		}
+		if gd, ok := ds.Decl.(*ast.GenDecl); ok && gd.Tok == token.VAR {
+			for _, sp := range gd.Specs {
+				vs := sp.(*ast.ValueSpec)
+				if se, ok := vs.Type.(*ast.SelectorExpr); ok && se.Sel.Name == "Once" {
+					if x, ok := se.X.(*ast.Ident); ok && x.Name == "sync" {
+						for _, nm := range vs.Names {
+							onceVars[nm.Name] = true
+						}
+					}
+				}
+			}
+		}
+		return true
+	})
+	closes, closesUnderOnce := 0, 0
+	var walk func(n ast.Node, underOnce bool)
+	walk = func(n ast.Node, underOnce bool) {
+		ast.Inspect(n, func(m ast.Node) bool {
+			c, ok := m.(*ast.CallExpr)
+			if !ok {
+				return true
+			}
+			if id, ok := c.Fun.(*ast.Ident); ok && id.Name == "close" {
+				closes++
+				if underOnce {
+					closesUnderOnce++
+				}
+				return true
+			}
+			if se, ok := c.Fun.(*ast.SelectorExpr); ok && se.Sel.Name == "Do" && !underOnce {
+				if x, ok := se.X.(*ast.Ident); ok && onceVars[x.Name] {
+					for _, a := range c.Args {
+						walk(a, true)
+					}
+					return false
+				}
+			}
+			return true
+		})
+	}
+	walk(px.Body, false)
+	closedOnce := closes > 0 && closes == closesUnderOnce
+
 	// --- emitEligibleFrames: bare send or select
 	em := funcDecl(relay, "outputBuffer", "emitEligibleFrames")
 	bare, guarded := 0, 0
@@ -479,6 +532,8 @@ func main() {
 		"Definition src_destmu_released_on_every_path : bool := " + b(destMuOK) + ".\n" +
 		"(* processFrame never re-declares `err` in an inner scope: every error assigned in its switch reaches `return err` *)\n" +
 		"Definition src_processframe_errors_reach_return : bool := " + b(errsReachReturn) + ".\n" +
+		"(* every close(<chan>) in Proxy is inside a sync.Once's Do: the session's done channel is closed at most once *)\n" +
+		"Definition src_done_closed_at_most_once : bool := " + b(closedOnce) + ".\n" +
 		"(* every shape the translator looks for was found *)\n" +
 		"Definition src_shape_ok : bool := " + b(len(problems) == 0) + ".\n"
 	for _, m := range problems {
